@@ -819,7 +819,7 @@ sec_p1(const rkey *k, const impl_t *m)
 {
 	size_t nlen = k->nlen;
 	long npos = budget(k, m, 0, 24, g_tier ? 1200 : 150);
-	int hi, nvar = 0;
+	int hi, nvar = 0, nfull = 0;
 	pkv pv, pz;
 	unsigned char *em = xmalloc(nlen), *sig = xmalloc(nlen), *ref = xmalloc(nlen), *em2 = xmalloc(nlen);
 	size_t *pos = xmalloc((nlen + 1) * sizeof *pos);
@@ -872,6 +872,23 @@ sec_p1(const rkey *k, const impl_t *m)
 				"%s hash=%s hv=%s", g_ctx, h->name, vf_hexs(hv, h->hlen));
 		}
 		free_sk(&sv);
+		/* more signatures (random hash values, all private key views) while the budget lasts */
+		{
+			long extra = heavy / NHASH_P1, x;
+			if (extra > (g_tier ? 40 : 6)) extra = g_tier ? 40 : 6;
+			for (x = 0; x < extra; x ++) {
+				unsigned char hv2[64], *so = xmalloc(nlen);
+				vf_bytes(&R, hv2, h->hlen);
+				mk_sk_var(&sv, k, nvar ++ & 3);
+				r = m->sign(h->oid, hv2, h->hlen, &sv.sk, so);
+				if (RSA_sign(h->nid, hv2, (unsigned)h->hlen, em2, &sl, k->rsa) != 1 || sl != nlen) HARNESS_FAIL("RSA_sign");
+				CMP("p1_sign_identical");
+				if (r != 1 || memcmp(so, em2, nlen) != 0)
+					rviol("C10:p1:sign-vs-openssl", "pkcs1_sign output differs from OpenSSL RSA_sign (deterministic scheme) or returned 0",
+						"%s hash=%s sk=%s r=%u hv=%s got=%s", g_ctx, h->name, sv.desc, r, vf_hexs(hv2, h->hlen), vf_hexs(so, nlen));
+				free(so); free_sk(&sv);
+			}
+		}
 		vf_distinct("config", "p1/%s/%s/%s", m->name, k->name, h->name);
 		if (hi == 3) vf_sample("{\"sec\":\"p1\",\"impl\":\"%s\",\"key\":\"%s\",\"hash\":\"%s\",\"hv\":\"%s\",\"sig\":\"%s\"}",
 			m->name, k->name, h->name, vf_hexs(hv, h->hlen), vf_hexs(ref, nlen > 48 ? 48 : nlen));
@@ -932,9 +949,10 @@ sec_p1(const rkey *k, const impl_t *m)
 			for (u = 0; u < 11; u ++) must[nm ++] = u;
 			for (u = sep - 1; u < sep + tl + 2 && u < nlen && nm < 78; u ++) must[nm ++] = u;
 			must[nm ++] = nlen - 1;
-			np_ = pick_positions(pos, nlen, (size_t)npos, must, nm);
+			/* thorough: every position for the first hash of the unit */
+			np_ = pick_positions(pos, nlen, (g_tier && nfull ++ == 0) ? nlen : (size_t)npos, must, nm);
 			for (u = 0; u < np_; u ++) {
-				int a, na = g_tier ? 3 : 1;
+				int a, na = (g_tier && np_ < nlen) ? 3 : 1;
 				for (a = 0; a < na; a ++) {
 					int exp;
 					memcpy(em2, em, nlen);
@@ -1039,6 +1057,7 @@ sec_pss(const rkey *k, const impl_t *m)
 	long ncombo = budget(k, m, 1, 2, g_tier ? 72 : 12);
 	long npos = budget(k, m, 0, 16, g_tier ? 1200 : 100);
 	long it;
+	int nfull = 0;
 	pkv pv, pz;
 	unsigned char *sig = xmalloc(nlen), *em = xmalloc(nlen), *em2 = xmalloc(nlen), *osig = xmalloc(nlen);
 	size_t *pos = xmalloc((nlen + 1) * sizeof *pos);
@@ -1184,7 +1203,7 @@ sec_pss(const rkey *k, const impl_t *m)
 			must[nm ++] = 0; must[nm ++] = off; must[nm ++] = nlen - 1; must[nm ++] = nlen - 2;
 			must[nm ++] = off + dbl; must[nm ++] = off + dbl - 1;
 			must[nm ++] = off + dbl - slen - 1; must[nm ++] = off + (dbl - slen - 1) / 2;
-			np_ = pick_positions(pos, nlen, (size_t)(npos / (ncombo > 4 ? 4 : 1) + 8), must, nm);
+			np_ = pick_positions(pos, nlen, (g_tier && nfull ++ == 0) ? nlen : (size_t)(npos / (ncombo > 4 ? 4 : 1) + 8), must, nm);
 			for (u = 0; u < np_; u ++) {
 				memcpy(em2, em, nlen);
 				em2[pos[u]] = alt_byte(em[pos[u]], (unsigned)(u + (size_t)it));
@@ -1326,7 +1345,7 @@ sec_oaep(const rkey *k, const impl_t *m)
 	mk_pk(&pv, k, 0, 0);
 	mk_pk(&pz, k, 1 + vf_below(&R, 3), vf_below(&R, 2));
 	drbg_init(&dc);
-	g_allow = budget(k, m, 1, 5, g_tier ? 900 : 60);
+	g_allow = budget(k, m, 1, g_tier ? (long)(m->cost <= 12 ? nlen + 60 : nlen / 4 + 20) : 5, g_tier ? 1200 : 60);
 	for (it = 0; it < ncombo; it ++) {
 		const hdesc *h = &HASHES[(unsigned)((unsigned long)it + (unsigned)g_unit + g_seed) % NHASH];
 		size_t hl = h->hlen;
@@ -1526,7 +1545,8 @@ sec_oaep(const rkey *k, const impl_t *m)
 				size_t must[8], nm = 0;
 				must[nm ++] = 0; must[nm ++] = 1; must[nm ++] = hl; must[nm ++] = hl + 1;
 				must[nm ++] = 2 * hl; must[nm ++] = 2 * hl + 1; must[nm ++] = nlen - 1; must[nm ++] = nlen - 1 - mlen;
-				np_ = pick_positions(pos, nlen, (size_t)(quota / 2 > 0 ? quota / 2 : 1), must, nm);
+				np_ = pick_positions(pos, nlen, (g_tier && nfit == 1) ? (size_t)(g_allow > 0 ? g_allow : 1)
+					: (size_t)(quota / 2 > 0 ? quota / 2 : 1), must, nm);
 				for (u = 0; u < np_; u ++) {
 					size_t ml2 = 0;
 					int exp;
@@ -1633,7 +1653,7 @@ sec_tls(const rkey *k, const impl_t *m)
 		skv sv;
 		size_t must[64], nm = 0, np_;
 		int v, vv;
-		g_allow = budget(k, m, 1, 5, g_tier ? 700 : 60);
+		g_allow = budget(k, m, 1, g_tier ? (long)(m->cost <= 12 ? nlen + 10 : nlen / 4 + 10) : 5, g_tier ? 700 : 60);
 		mk_sk(&sv, k, 0, NULL);
 		em[0] = 0; em[1] = 2;
 		for (u = 2; u < nlen - 49; u ++) em[u] = (unsigned char)vf_range(&R, 1, 255);
